@@ -186,7 +186,11 @@ partial def event (sm : Sim) (ev : String) (nested : Bool := false) : Sim :=
       let ai := a.toNat?.getD 0
       let m0 := { parseMsg d with hbh := 0 }
       let timeout := match rest with | x :: _ => x.toNat?.getD 30 | [] => 30
-      let wev := (rest.drop 1).map fun x => if x.contains '_' then x.replace "_" " " else x.replace "~" " "
+      -- (a leading "!" asks the real harness to play the event already while the request is being queued -- the same thing
+      -- for the model, whose send is one step)
+      let wev := (rest.drop 1).map fun x0 =>
+        let x := if x0.startsWith "!" then (x0.drop 1).toString else x0
+        if x.contains '_' then x.replace "_" " " else x.replace "~" " "
       let r := (appSendRequestBegin sm.w.st ai m0 (sm.infoOf m0)).2
       let sm := sm.op (.reqBegin ai m0)
       match r with
@@ -206,7 +210,8 @@ partial def event (sm : Sim) (ev : String) (nested : Bool := false) : Sim :=
           | some (_, g) => { sm with lines := sm.lines ++ [s!"APP a{ai} GOT cmd={g.cmd} hbh={g.hbh} e2e={g.e2e}"] }
           | none => { sm with lines := sm.lines ++ [s!"APP a{ai} RAISE TimeoutError"] }
         sm.settle
-    | ["outcome", a, o] => sm.op (.outcome (a.toNat?.getD 0) o)
+    -- ("raisenr": the handler fails with the library's own not-routable error -- a failure like any other)
+    | ["outcome", a, o] => sm.op (.outcome (a.toNat?.getD 0) (if o == "raisenr" then "raise" else o))
     | "handler" :: rest =>
       let k := match rest with | x :: _ => x.toNat?.getD 0 | [] => 0
       (sm.op (.handler k)).flushOuts.settle
@@ -252,7 +257,8 @@ def parseCfg (cfg : String) : St × List String :=
   let peers : List Peer := (items.filter (·.startsWith "peer:")).map fun i =>
     match ((i.drop 5).toString).splitOn "," with
     | name :: realm :: pers :: always :: wait :: hasaddr :: _dflt :: rest =>
-      { name := name, realm := realm, persistent := pers == "1", always := always == "1",
+      -- (realm "-": the peer was added without a realm name and gets the node's)
+      { name := name, realm := (if realm == "-" then kv "realm" "realm.local" else realm), persistent := pers == "1", always := always == "1",
         wait := wait.toNat?.getD 30, hasAddr := hasaddr == "1",
         ceaTo := optNat (rest.getD 0 "-"), cerTo := optNat (rest.getD 1 "-"),
         dwaTo := optNat (rest.getD 2 "-"), idleTo := optNat (rest.getD 3 "-") }
